@@ -1,0 +1,15 @@
+//go:build verif
+
+package functions
+
+// Accessors for the verification harness (/verif). Compiled only with -tags verif.
+
+// VerifBridgeMatchesLike exposes (*ExprBridge).matchesLikePattern.
+func VerifBridgeMatchesLike(text, pattern string) bool {
+	return GetExprBridge().matchesLikePattern(text, pattern)
+}
+
+// VerifConvertLike exposes (*ExprBridge).convertLikeToFunction.
+func VerifConvertLike(field, pattern string) string {
+	return GetExprBridge().convertLikeToFunction(field, pattern)
+}
